@@ -4,6 +4,7 @@ import FiberModel.C12.Known
 Driver for C12. Case fields after the id (see harness/cmd/c12/main.go):
   rtc keys vals levels oldKeys oldVals [wi<positions>] | issued c2 seen2 c3 seen3
   rtt keys vals levels oldKeys oldVals [wi<positions>] | issued st2 seen2 exp2 st3 seen3
+  ish keys vals levels oldKeys oldVals wi ends ('|'-joined, one entry per step) | status/issued per step
   rff keys vals levels mode | issued st2 relaySeen issued2 exp2 st3 seen3 exp3 st4 seen4
   dec cookies | steps allocs
 -/
@@ -178,6 +179,47 @@ def collisionTags (ms : List Msg) : List String :=
   | [] => []
   | m :: _ => [if m.old then "nt-keyed-old-first" else "nt-keyed-flash-first"]
 
+/-- issuing history on one app: the pooled `Redirect` is threaded through the steps (`Pooled`) -/
+def handleIsh (id : String) (cols : List String) (ends obs : String) : Except String Verdict := do
+  let colsS := cols.map (·.splitOn "|")
+  let endsS := ends.splitOn "|"
+  let obsS := obs.splitOn "|"
+  let n := endsS.length
+  if colsS.any (·.length ≠ n) ∨ obsS.length ≠ n ∨ cols.length ≠ 6 then throw "outside-domain: ragged history"
+  if endsS.any (fun e => e ≠ "to" ∧ e ≠ "ok" ∧ e ≠ "back") then throw "outside-domain: ending"
+  let rec go (i : Nat) (pool : Pooled) (fuel : Nat) : Except String (List String × List (Option String) × List (Option String) × List String) :=
+    match fuel with
+    | 0 => pure ([], [], [], [])
+    | fuel + 1 =>
+      if i ≥ n then pure ([], [], [], []) else do
+        let f := colsS.map (·.getD i "")
+        let s ← match f with
+          | [ks, vs, ls, oks, ovs, wi] => parseScript ks vs ls oks ovs (some wi)
+          | _ => throw "outside-domain: columns"
+        let e := endsS.getD i ""
+        let (stS, issS) ← match (obsS.getD i "").splitOn "/" with
+          | [a, b] => pure (a, b)
+          | _ => throw "outside-domain: step observation"
+        let some st := stS.toNat? | throw "outside-domain: status"
+        let some iss := parseOpt issS | throw "outside-domain: issued"
+        -- model: run the chain on the pooled Redirect, in the map orders the implementation used
+        let cands := (orderChoices s.inputs s.wipos.length).map fun orders => pool.run (interleave s.calls s.wipos orders)
+        let pick := fun (p : Pooled) => if e = "to" then issueOnWire p.visible = iss else true
+        let p' := (cands.find? pick).getD (cands.headD pool)
+        let mIss := if e = "to" then issueOnWire p'.visible else none
+        let mSt := if e = "to" then 302 else if e = "ok" then 200 else 500
+        let flash := expectedFlash s.calls
+        let old := expectedOldN s.wipos.length s.inputs
+        let spec := specIssue flash old { completes := e = "to", status := st, issued := iss }
+        let known := if Known.K1for spec true (flash ++ old) then some "K1" else none
+        let (mo, sp, kn, tg) ← go (i + 1) p'.release fuel
+        pure (s!"{mSt}/{optHex mIss}" :: mo, spec :: sp, known :: kn, ("end-" ++ e) :: (scriptTags s ++ tg))
+  let (mo, specs, knowns, tags) ← go 0 ⟨[], []⟩ (n + 1)
+  let failing := (specs.zip knowns).find? (·.1.isSome)
+  let incomplete := (endsS.take (n - 1)).any (· ≠ "to")
+  pure { id := id, modelObs := "|".intercalate mo, implObs := obs, spec := failing.bind (·.1), known := failing.bind (·.2),
+         tags := "ish" :: ((if incomplete ∧ endsS.getLast? = some "to" then ["nt-ish-after-incomplete"] else []) ++ tags.eraseDups) }
+
 def parseMode : String → Option RelayMode
   | "same" => some .same
   | "rev" => some .rev
@@ -293,6 +335,7 @@ def handleCase (f : List String) : Except String Verdict := do
     handleRtc id (← parseScript ks vs ls oks ovs (some wi)) issued c2 seen2 c3 seen3
   | [id, "rtt", ks, vs, ls, oks, ovs, wi, issued, st2, seen2, exp2, st3, seen3] =>
     handleRtt id (← parseScript ks vs ls oks ovs (some wi)) issued st2 seen2 exp2 st3 seen3
+  | [id, "ish", ks, vs, ls, oks, ovs, wi, ends, obs] => handleIsh id [ks, vs, ls, oks, ovs, wi] ends obs
   | [id, "rff", ks, vs, ls, mode, issued, st2, seen2, issued2, exp2, st3, seen3, exp3, st4, seen4] =>
     let some m := parseMode mode | throw "outside-domain: relay mode"
     handleRff id (← parseScript ks vs ls "-" "-" (some "wi-")) m issued st2 seen2 issued2 exp2 st3 seen3 exp3 st4 seen4
